@@ -30,6 +30,11 @@ Line-protocol front end of the C06 model.
   `family_semilinear` speak about) from the arguments, and evaluated exactly at Gaussian dyadic rationals (`OpIR.CDy`: every float is one) on every
   input vector. `ARG` is `v CLIST` (a vector), `m NROWS CLIST` (a matrix, row major) or `-` (an absent optional
   part); `CLIST = [re,im,re,im,…]`. `expect` is `Family.conj` of the family.
+* `C06 keep-excited THETA [x,…]` → `ok [y,…] sumsq=S` : `OpIR.Old.keepExcited` — the model of the *defect class*
+  "keep only what this input excites" (homogeneous, not additive: `keepExcited_homogeneous`,
+  `keepExcited_not_additive`) — run on exact rationals.  The harness feeds the outputs of this op to its own
+  wide-magnitude linearity rule (`wide_tolerance`) as a self-test: the rule must flag the map with a faint term and
+  must not flag it on single inputs times a factor.
 * `C06 denote-family-blocks R FAMILY ARG… @ X1 @ X2 …` → the same, with `OpIR.denoteBlocks`: every input is a polarised
   field stored component after component (`R` = 2 or 4 components of equal length); the family's term is applied to
   each component (`family_semilinear_blocks`).
@@ -199,6 +204,10 @@ def step (st : St) : List String → St × String
         | none => (st, "bad-args")
       | _, _ => (st, "bad-op")
     | _, _, _ => (st, "bad-op")
+  | ["keep-excited", th, xs] =>
+    match parseRat? th, parseRatList? xs with
+    | some θ, some x => (st, s!"ok {showRatList (Old.keepExcited θ x)} sumsq={showRat (Old.sumsq x)}")
+    | _, _ => (st, "bad-op")
   | _ => (st, "bad-op")
 
 end HcipyVerif.Driver.C06
